@@ -76,6 +76,20 @@ def gen_cases(tier, seed):
                 if k < len(fr) * 8 and (pat >> j) & 1:
                     g[k // 8] ^= 1 << (k % 8)
             frames.append(g)
+    # frames longer than 65535 bytes: valid ones, a flipped bit near the end, and a corrupted frame whose first (length mod 65536)
+    # bytes happen to be a self-consistent short frame (a length kept in 16 bits would accept it)
+    n_wide = 0
+    for L in ([65536, 65537, 65536 + 60] if q else [65536, 65537, 65540, 65536 + 60, 65536 + 300, 131072, 131072 + 24, 200000]):
+        body = [rng.randrange(256) for _ in range(L)]
+        fr = body + list(fcs(body))
+        frames.append(fr)
+        g = list(fr); g[-6] ^= 0x10; frames.append(g)
+        k = (L + 4) % 65536
+        if k >= 8:
+            g = list(fr); g[k - 4:k] = list(fcs(g[:k - 4])); frames.append(g)
+        n_wide += 3
+        msgs_wide = body
+        cases.append("crc " + hx(msgs_wide))
     cases += ["verify " + hx(f) for f in frames]
     # a receive buffer that is re-used: equally long frames verified one after the other in the SAME block - a valid frame, the
     # same frame with one bit flipped in place, the valid one again, another valid frame of that length, a corrupted FCS
@@ -93,7 +107,7 @@ def gen_cases(tier, seed):
             seq = [bytes(flip)] + seq
         cases.append("verifyseq " + " ".join(hx(x) for x in seq)); n_seq += 1
     return cases, {"small_exhaustive": n_small, "single_bit_basis": n_basis, "random_messages": nr,
-                   "verify_frames": len(frames), "single_bit_flips": n_flip, "total": len(cases)}
+                   "verify_frames": len(frames), "frames_over_65535_bytes": n_wide, "single_bit_flips": n_flip, "total": len(cases)}
 
 
 def judge(case, impl, model, spec=None):
